@@ -1,4 +1,6 @@
 import GrolProofs.MemoryLemmas
+import Grol.Generated.LoopFacts
+import Grol.BoundedSuite
 /-
 C09 — execution is bounded: the arithmetic of the allocation guard, and the depth counter.
 
@@ -96,6 +98,26 @@ theorem C09.arrConcat_sound (free1 free2 : Int) (la lb : Nat) (ha : la < 2 ^ 62)
     exact ⟨h.symm, by simpa using this⟩
   · rw [if_neg hg] at h; cases h
 
+/-- **`string + string`** (lengths of existing strings: below 2^62): the result has exactly `la + lb` bytes and
+that many bytes, counted in 16-byte objects, fit the budget -/
+theorem C09.strConcat_sound (free1 free2 : Int) (la lb : Nat) (ha : la < 2 ^ 62) (hb : lb < 2 ^ 62) (k : Nat)
+    (h : strConcat free1 free2 la lb = .ok k) :
+    k = la + lb ∧ Fits free1 free2 (((la : Int) + lb) / 16) := by
+  unfold strConcat at h
+  simp only at h
+  have hsum : (BitVec.ofNat 64 la + BitVec.ofNat 64 lb : I64) = BitVec.ofNat 64 (la + lb) := by
+    apply BitVec.eq_of_toNat_eq; simp [BitVec.toNat_add, BitVec.toNat_ofNat]
+  rw [hsum] at h
+  have hint : (BitVec.ofNat 64 (la + lb) : I64).toInt = ((la + lb : Nat) : Int) := toInt_ofNat_of_lt (la + lb) (by omega)
+  by_cases hg : mustBeOk free1 free2 ((BitVec.ofNat 64 (la + lb) : I64).sdiv 16#64) = true
+  · rw [if_pos hg] at h
+    injection h with h
+    have := mustBeOk_sound _ _ _ hg
+    rw [toInt_sdiv16 _ (by rw [hint]; omega), hint] at this
+    rw [toNat_ofNat_of_lt (la + lb) (by omega)] at h
+    exact ⟨h.symm, by simpa using this⟩
+  · rw [if_neg hg] at h; cases h
+
 /-- **`map + map`**: room for `2 * (la + lb)` objects (key and value) is checked -/
 theorem C09.mapAppend_sound (free1 free2 : Int) (la lb : Nat) (ha : la < 2 ^ 61) (hb : lb < 2 ^ 61) (k : Nat)
     (h : mapAppend free1 free2 la lb = .ok k) :
@@ -152,6 +174,8 @@ example : arrRepeat 1000000 1000000 4 (100000#64) = .guard := by decide
 example : arrRepeat 1000000 1000000 4 (4611686018427387904#64) = .err := by decide      -- [1,2,3,4] * (1<<62)
 example : strRepeat 1000000 1000000 4 (4611686018427387904#64) = .err := by decide      -- "abcd" * (1<<62)
 example : range 1000000 1000000 (0#64) (1152921504606846976#64) = .guard := by decide     -- 0:(1<<60)
+example : strConcat 1000000 1000000 3000 2000 = .ok 5000 := by decide
+example : strConcat 200000000 200000000 134217728 134217728 = .guard := by decide          -- 128 MiB + 128 MiB with 200 MB free
 example : range (-1) (-1) (9223372036854775807#64) (BitVec.ofInt 64 (-9223372036854775758)) = .ok 0 := by decide
 
 end Grol.Memory
@@ -263,8 +287,144 @@ theorem C09.chain_ok_iff (m n : Nat) : ∀ d, ((run m d (chain n)).2 = .ok d ↔
         · intro _; omega
         · intro _; simp [run]
 
+/-- the depth prediction used by the `bounded` suite's driver is the counter model run on a chain -/
+theorem C09.chainOk_spec (m n : Nat) :
+    Grol.BoundedSuite.chainOk m n = true ↔ (run m 0 (chain n)).2 = .ok 0 := by
+  rw [C09.chain_ok_iff]
+  unfold Grol.BoundedSuite.chainOk
+  simp only [Bool.or_eq_true, beq_iff_eq, decide_eq_true_eq]
+  omega
+
+/-- unbounded recursion (a chain longer than the limit allows) always ends in the recoverable guard -/
+theorem C09.unbounded_recursion_guarded (m : Nat) : Grol.BoundedSuite.chainOk m (m + 2) = false := by
+  unfold Grol.BoundedSuite.chainOk
+  simp
+
 example : (run 3 0 (chain 4)).2 = .ok 0 := by decide
 example : (run 3 0 (chain 5)).2 = .maxDepth 4 := by decide
 example : (run 3 0 (.call (chain 2) (chain 4))).1 = [1, 2, 3, 2, 1, 0, 1, 2, 3, 4, 3, 2, 1, 0] := by decide
 
 end Grol.Depth
+
+/-! ### the Go-level loops of the evaluator (time part of C09: the deadline is observed)
+
+`evalInternal` tests `s.Context.Err()` on entry.  A Go-level loop therefore observes the deadline once
+per iteration when its body evaluates a node; every other loop must be bounded by something that
+already exists (a container, a parameter list, the frame chain), by a constant, or by a count that
+went through the allocation guard (so that count * 16 bytes fit the memory budget).  The list of
+loops is regenerated from the Go sources on every run (`Grol.Generated.LoopFacts`, extractor
+harness/cmd/harness/extract_loops.go); the classification below is by hand, and
+`C09.loops_classified` breaks when a loop is added, removed, moved to another function or changes
+its header.  How long one iteration takes (Go scheduler, GC, cache misses) is not a theorem: the
+`bounded` suite measures wall-clock time after the deadline on the real interpreter.
+
+CAVEAT (recorded finding `shared-structure-exponential-traversal`): "bounded by an existing container"
+bounds ONE loop by the container's length; the loops of Cmp / Inspect / Hashable / JSON recurse into
+the elements, and because values share structure (`a=[a,a]` n times) the unfolded size of a value
+is not bounded by the memory it occupies.  Those traversals are exponential in the program length and
+never poll the context: a genuine hang, exhibited by the suite's `dag-eq` / `dag-print` families. -/
+namespace Grol.Generated.LoopFacts
+
+inductive LoopClass
+  /-- each iteration evaluates a node: `evalInternal` polls the context -/
+  | polls
+  /-- iterates over an existing container, string, argument or parameter list, statement list -/
+  | boundedByContainer
+  /-- the iteration count went through MulLen / MustBeOk / MakeObjectSlice -/
+  | boundedByGuardedAllocation
+  /-- at most a compile-time constant number of iterations -/
+  | boundedByConstant
+  /-- walks the chain of environments (at most the current call depth ≤ MaxDepth + 1 frames) -/
+  | boundedByFrames
+  deriving DecidableEq, Repr
+
+structure Classified where
+  site : String
+  cls : LoopClass
+  why : String
+
+open LoopClass in
+/-- the hand classification, in the order of the generated list -/
+def Spec.classifiedLoops : List Classified := [
+  ⟨"eval/eval.go | State.applyExtension | range args", boundedByContainer, "the evaluated argument list of one call"⟩,
+  ⟨"eval/eval.go | State.evalArrayInfixExpression | range rightVal", boundedByGuardedAllocation,
+    "array * count: n = MulLen(len, count) is checked, n = 0 returns before the loop, otherwise count ≤ n and MakeObjectSlice(n) passed the guard"⟩,
+  ⟨"eval/eval.go | State.evalExpressions | range exps", polls, "evalInternal(e) per element"⟩,
+  ⟨"eval/eval.go | State.evalForExpression | for ; ; ", polls, "evalInternal(fe.Condition) per iteration"⟩,
+  ⟨"eval/eval.go | State.evalForInteger | for i := startValue; i < endValue; i++", polls, "evalInternal(newBody) per iteration; an error result (deadline) leaves the loop"⟩,
+  ⟨"eval/eval.go | State.evalForList | for ; object.Len(list) > 0; ", polls, "evalInternal(fe.Body) per iteration (Rest(list) costs O(len) per iteration)"⟩,
+  ⟨"eval/eval.go | State.evalIntegerInfixExpression | for i := leftVal; i < rightVal; i++", boundedByGuardedAllocation,
+    "left:right: MakeObjectSlice(right-left) passed the guard; when the subtraction wraps, left > right and the loop body never runs (range_sound)"⟩,
+  ⟨"eval/eval.go | State.evalMapLiteral | range node.Order", polls, "s.Eval(keyNode), s.Eval(valueNode)"⟩,
+  ⟨"eval/eval.go | State.evalPrintLogError | range node.Parameters", polls, "evalInternal(v) per parameter"⟩,
+  ⟨"eval/eval.go | State.evalStatements | range stmts", polls, "evalInternal(statement)"⟩,
+  ⟨"eval/eval.go | State.extendFunctionEnv | range params", boundedByContainer, "the parameter list of the called function"⟩,
+  ⟨"eval/eval_api.go | State.SetArgs | range args", boundedByContainer, "host supplied argument vector"⟩,
+  ⟨"eval/macro_expension.go | State.DefineMacros | for i := 0; i < len(program.Statements); ", boundedByContainer,
+    "each iteration either advances i or removes one statement of the parsed program"⟩,
+  ⟨"eval/macro_expension.go | extendMacroEnv | range macro.Parameters", boundedByContainer, "parameter list of the macro"⟩,
+  ⟨"eval/macro_expension.go | quoteArgs | range exp.Arguments", boundedByContainer, "argument list of one macro call in the source"⟩,
+  ⟨"eval/memo.go | Cache.Get | range args", boundedByContainer, "argument list (at most MaxArgs = 4 entries)"⟩,
+  ⟨"eval/memo.go | Cache.Set | range args", boundedByContainer, "argument list"⟩,
+  ⟨"eval/stack.go | State.Stack | for e := s.env; e != nil; e = e.StackParent()", boundedByFrames, "one step per stack frame"⟩,
+  ⟨"object/interp.go | Unwrap | range objs", boundedByContainer, "existing slice"⟩,
+  ⟨"object/interp.go | ValidIdentifier | range []byte(name)", boundedByContainer, "bytes of a name"⟩,
+  ⟨"object/interp.go | initialIdentifiersCopy | range extraIdentifiers", boundedByContainer, "the host's table of pre-seeded identifiers"⟩,
+  ⟨"object/object.go | BigArray.JSON | range ao.elements", boundedByContainer, "existing array"⟩,
+  ⟨"object/object.go | BigMap.Append | range right.mapElements()", boundedByContainer, "existing right map (result size guarded before)"⟩,
+  ⟨"object/object.go | BigMap.Inspect | range m.kv", boundedByContainer, "existing map"⟩,
+  ⟨"object/object.go | BigMap.JSON | range m.kv", boundedByContainer, "existing map"⟩,
+  ⟨"object/object.go | BigMap.Unwrap | range m.kv", boundedByContainer, "existing map"⟩,
+  ⟨"object/object.go | Cmp | range m1.mapElements()", boundedByContainer, "existing map (recursion into values: bounded by the value's size)"⟩,
+  ⟨"object/object.go | Cmp | range a1.Elements()", boundedByContainer, "existing array"⟩,
+  ⟨"object/object.go | Elements | range v.smallKV[:v.len]", boundedByContainer, "existing small map"⟩,
+  ⟨"object/object.go | Elements | range v.kv", boundedByContainer, "existing map (result slice guarded)"⟩,
+  ⟨"object/object.go | Error.Inspect | range e.Stack", boundedByContainer, "recorded stack of an error"⟩,
+  ⟨"object/object.go | Extension.Usage | for i := 1; i <= e.MinArgs; i++", boundedByConstant, "MinArgs is a registration constant of the extension"⟩,
+  ⟨"object/object.go | First | range a.Parameters", boundedByContainer, "parameter list"⟩,
+  ⟨"object/object.go | Hashable | range sa.smallArr[:sa.len]", boundedByContainer, "at most MaxSmallArray elements"⟩,
+  ⟨"object/object.go | Hashable | range sm.smallKV[:sm.len]", boundedByContainer, "at most MaxSmallMap entries"⟩,
+  ⟨"object/object.go | Rest | range body", boundedByContainer, "statements of a function body"⟩,
+  ⟨"object/object.go | SmallMap.Append | range right.mapElements()", boundedByContainer, "existing right map"⟩,
+  ⟨"object/object.go | SmallMap.Append | range right.mapElements()", boundedByContainer, "existing right map"⟩,
+  ⟨"object/object.go | SmallMap.Delete | for i := where; i < m.len-1; i++", boundedByConstant, "m.len ≤ MaxSmallMap"⟩,
+  ⟨"object/object.go | SmallMap.Inspect | range m.len", boundedByConstant, "m.len ≤ MaxSmallMap"⟩,
+  ⟨"object/object.go | SmallMap.Set | for j := m.len - 1; j > i; j--", boundedByConstant, "m.len ≤ MaxSmallMap"⟩,
+  ⟨"object/object.go | SmallMap.Unwrap | range m.smallKV[:m.len]", boundedByConstant, "m.len ≤ MaxSmallMap"⟩,
+  ⟨"object/object.go | SmallMap.get | range m.len", boundedByConstant, "m.len ≤ MaxSmallMap"⟩,
+  ⟨"object/object.go | UnwrapStringKeys | range m.mapElements()", boundedByContainer, "existing map"⟩,
+  ⟨"object/object.go | Value | for ; ; ", boundedByConstant, "reference chain: panics after 100 steps"⟩,
+  ⟨"object/object.go | WriteStrings | range list", boundedByContainer, "existing list"⟩,
+  ⟨"object/state.go | Constant | range name", boundedByContainer, "runes of a name"⟩,
+  ⟨"object/state.go | Environment.BaseInfo | range sets.Sort(tokInfo.Keywords)", boundedByContainer, "token tables"⟩,
+  ⟨"object/state.go | Environment.BaseInfo | range sets.Sort(tokInfo.Tokens)", boundedByContainer, "token tables"⟩,
+  ⟨"object/state.go | Environment.BaseInfo | range sets.Sort(tokInfo.Builtins)", boundedByContainer, "token tables"⟩,
+  ⟨"object/state.go | Environment.BaseInfo | range ext", boundedByContainer, "extension registry"⟩,
+  ⟨"object/state.go | Environment.Info | for ; ; ", boundedByFrames, "one step per enclosing environment"⟩,
+  ⟨"object/state.go | Environment.Info | range e.store", boundedByContainer, "bindings of one environment"⟩,
+  ⟨"object/state.go | Environment.Info | range keys", boundedByContainer, "bindings of one environment"⟩,
+  ⟨"object/state.go | Environment.RegisterTrie | for ; e.outer != nil; ", boundedByFrames, "walk to the root environment"⟩,
+  ⟨"object/state.go | Environment.RegisterTrie | range e.store", boundedByContainer, "bindings"⟩,
+  ⟨"object/state.go | Environment.SaveGlobals | for ; e.outer != nil; ", boundedByFrames, "walk to the root environment"⟩,
+  ⟨"object/state.go | Environment.SaveGlobals | range e.store", boundedByContainer, "bindings"⟩,
+  ⟨"object/state.go | Environment.SaveGlobals | range keys", boundedByContainer, "bindings"⟩,
+  ⟨"object/state.go | Environment.makeRef | for ; e.outer != nil; ", boundedByFrames, "walk up the (lexical) environment chain"⟩,
+  ⟨"repl/repl.go | logParserErrors | range errs", boundedByContainer, "parser errors of one input"⟩ ]
+
+/-- **C09 (time part, 1)**: every Go-level loop of the evaluator is one of the classified loops and vice
+versa (same sites, same order): a new, removed, moved or re-headed loop breaks this obligation. -/
+theorem C09.loops_classified : loops.map (·.site) = Spec.classifiedLoops.map (·.site) := by decide
+
+/-- **C09 (time part, 2)**: the loops classified `polls` are exactly those whose body contains a call of a
+context-polling evaluator entry point (a syntactic fact of the source, regenerated) -/
+theorem C09.polling_loops_poll :
+    (loops.filter (·.polls)).map (·.site) =
+      (Spec.classifiedLoops.filter (·.cls == LoopClass.polls)).map (·.site) := by decide
+
+/-- no loop is left outside the five classes, and there are unbounded-looking headers (`for ; ;`) only in
+the classes `polls`, `boundedByConstant` (reference chain, 100 steps) and `boundedByFrames` -/
+theorem C09.bare_for_loops :
+    ((loops.zip Spec.classifiedLoops).filter (fun p => p.1.kind == "for" && p.1.over == "; ; ")).map (·.2.cls) =
+      [LoopClass.polls, LoopClass.boundedByConstant, LoopClass.boundedByFrames] := by decide
+
+end Grol.Generated.LoopFacts
